@@ -12,42 +12,67 @@
 (***************************************************************************)
 EXTENDS Integers, Sequences, FiniteSets, TLC
 CONSTANTS Shapers,        \* e.g. {"A", "B"}
-          Thresholds,     \* e.g. {0, 50, 100}  (percent)
-          MaxCalls
+          Thresholds,     \* e.g. {0, 50, 501, 100}  (percent; 501 stands for a threshold a rounding error above 50 %)
+          MaxCalls,
+          NearPairs,      \* pairs of thresholds that differ by less than 1e-9 (relative), e.g. {{50, 501}}
+          GraphKinds,     \* "normal" | "void" (instances exist, every predicate lies in an ignored namespace: the profile is empty)
+          Variant         \* "code" : the memo tests as coded;  "isclose" / "truthy" : two plausible rewritings that are wrong
 VARIABLES callerNs,       \* the dictionary object the caller passes to every constructor: set of prefixes in it
           built,          \* which Shapers exist
           ns,             \* Shaper -> set of prefixes in its own dictionary
           memoThr,        \* Shaper -> threshold its shape list was built with, or -1
           memoStages,     \* Shaper -> set of stages already computed
           dupExamples,    \* Shaper -> how many times example annotations were added to the statements
+          graph,          \* Shaper -> kind of graph / configuration it was built on
+          tracker,        \* Shaper -> "none" | "tracked" | "consumed" (the profiler rewrites the tracker's entries while it reads them)
+          profile,        \* Shaper -> "none" | "full" | "empty"
           log             \* sequence of [shaper, call, result]
-vars == <<callerNs, built, ns, memoThr, memoStages, dupExamples, log>>
+vars == <<callerNs, built, ns, memoThr, memoStages, dupExamples, graph, tracker, profile, log>>
 UserPrefixes == {"ex"}
 ShapePrefix(used) == IF "" \notin used THEN "" ELSE IF "weso-s" \notin used THEN "weso-s" ELSE "shapes"
 Calls == [kind : {"shex"}, fmt : {"shexc", "shacl"}, sink : {"string", "file"}, thr : Thresholds] \cup
          [kind : {"profile"}, fmt : {"json"}, sink : {"string"}, thr : {0}]
 \* what a brand-new Shaper returns for this call
-Fresh(c) == [fmt |-> c.fmt, thr |-> c.thr, prefixes |-> UserPrefixes \cup {ShapePrefix(UserPrefixes)}, dup |-> 0, sink |-> c.sink]
+Fresh(c) == [status |-> "ok", fmt |-> c.fmt, thr |-> c.thr, prefixes |-> UserPrefixes \cup {ShapePrefix(UserPrefixes)}, dup |-> 0, sink |-> c.sink]
+\* ---- the memo tests of Shaper.shex_graph / profile_graph
+\* "is the stored shape list the one for this threshold?"   code: self._shape_list_threshold != acceptance_threshold
+ThrHit(m, t) == IF Variant = "isclose" THEN m = t \/ {m, t} \in NearPairs ELSE m = t
+\* "is there a profile already?"   code: self._profile is None  (an empty dictionary IS a profile)
+NeedProfile(p) == IF Variant = "truthy" THEN p \in {"none", "empty"} ELSE p = "none"
 
 Init == /\ callerNs = UserPrefixes /\ built = {} /\ ns = [s \in Shapers |-> {}] /\ memoThr = [s \in Shapers |-> -1]
         /\ memoStages = [s \in Shapers |-> {}] /\ dupExamples = [s \in Shapers |-> 0] /\ log = <<>>
+        /\ graph \in [Shapers -> GraphKinds] /\ tracker = [s \in Shapers |-> "none"] /\ profile = [s \in Shapers |-> "none"]
 \* Shaper.__init__: copies the caller's dictionary and adds the shapes namespace to its own copy
 Construct(s) == /\ s \notin built /\ built' = built \cup {s}
                 /\ ns' = [ns EXCEPT ![s] = callerNs \cup {ShapePrefix(callerNs)}]
-                /\ UNCHANGED <<callerNs, memoThr, memoStages, dupExamples, log>>
-\* Shaper.shex_graph: stages are memoised; the shape list is rebuilt when the threshold differs from the memoised one;
-\* the serializers work on their own copy of the dictionary; example annotations are added once
+                /\ UNCHANGED <<callerNs, memoThr, memoStages, dupExamples, graph, tracker, profile, log>>
+\* the two memoised passes: the tracker runs once; the profiler runs when there is no profile yet and rewrites the tracker's entries
+\* as it goes - running it a second time over rewritten entries raises (TypeError: unhashable type)
+Passes(s) == LET need == NeedProfile(profile[s]) IN
+  [raises |-> need /\ tracker[s] = "consumed",
+   tracker |-> IF need THEN "consumed" ELSE IF tracker[s] = "none" THEN "tracked" ELSE tracker[s],
+   profile |-> IF need THEN (IF graph[s] = "void" THEN "empty" ELSE "full") ELSE profile[s]]
+\* Shaper.shex_graph: stages are memoised; the shape list is rebuilt when the threshold differs from the memoised one - what is
+\* serialised is the shape list for `used`; the serializers work on their own copy of the dictionary; example annotations are added once
 Shex(s, c) == /\ s \in built /\ c.kind = "shex" /\ Len(log) < MaxCalls
-              /\ memoStages' = [memoStages EXCEPT ![s] = @ \cup {"targets", "profile", "shapes"}]
-              /\ memoThr' = [memoThr EXCEPT ![s] = c.thr]
-              /\ log' = Append(log, [shaper |-> s, call |-> c,
-                                     result |-> [fmt |-> c.fmt, thr |-> c.thr, prefixes |-> ns[s], dup |-> 0, sink |-> c.sink]])
-              /\ UNCHANGED <<callerNs, built, ns, dupExamples>>
+              /\ LET ps == Passes(s)
+                     used == IF memoThr[s] # -1 /\ ThrHit(memoThr[s], c.thr) THEN memoThr[s] ELSE c.thr
+                 IN /\ tracker' = [tracker EXCEPT ![s] = ps.tracker] /\ profile' = [profile EXCEPT ![s] = ps.profile]
+                    /\ memoStages' = [memoStages EXCEPT ![s] = @ \cup {"targets", "profile", "shapes"}]
+                    /\ memoThr' = [memoThr EXCEPT ![s] = IF ps.raises THEN @ ELSE used]
+                    /\ log' = Append(log, [shaper |-> s, call |-> c,
+                                           result |-> [status |-> IF ps.raises THEN "raise" ELSE "ok", fmt |-> c.fmt, thr |-> used,
+                                                       prefixes |-> ns[s], dup |-> 0, sink |-> c.sink]])
+              /\ UNCHANGED <<callerNs, built, ns, dupExamples, graph>>
 Profile(s, c) == /\ s \in built /\ c.kind = "profile" /\ Len(log) < MaxCalls
-                 /\ memoStages' = [memoStages EXCEPT ![s] = @ \cup {"targets", "profile"}]
-                 /\ log' = Append(log, [shaper |-> s, call |-> c,
-                                        result |-> [fmt |-> c.fmt, thr |-> c.thr, prefixes |-> ns[s], dup |-> 0, sink |-> c.sink]])
-                 /\ UNCHANGED <<callerNs, built, ns, memoThr, dupExamples>>
+                 /\ LET ps == Passes(s)
+                    IN /\ tracker' = [tracker EXCEPT ![s] = ps.tracker] /\ profile' = [profile EXCEPT ![s] = ps.profile]
+                       /\ memoStages' = [memoStages EXCEPT ![s] = @ \cup {"targets", "profile"}]
+                       /\ log' = Append(log, [shaper |-> s, call |-> c,
+                                              result |-> [status |-> IF ps.raises THEN "raise" ELSE "ok", fmt |-> c.fmt, thr |-> c.thr,
+                                                          prefixes |-> ns[s], dup |-> 0, sink |-> c.sink]])
+                 /\ UNCHANGED <<callerNs, built, ns, memoThr, dupExamples, graph>>
 Next == \E s \in Shapers : Construct(s) \/ \E c \in Calls : Shex(s, c) \/ Profile(s, c)
 Spec == Init /\ [][Next]_vars
 \* ---- the contract
